@@ -8,7 +8,7 @@
 EXTENDS GlomT
 
 CONSTANTS MaxOps,        \* length bound of successful prefixes that are extended
-          Wide           \* TRUE: full operand alphabet; FALSE: reduced (quick tier)
+          Level          \* operand alphabet: 0 tiny (representatives), 1 reduced, 2 full
 
 \* ---- the target heap (fixed): an attribute object, a list, a dict, a tuple --------------
 Heap0 == <<
@@ -29,10 +29,12 @@ TK == TArg(<<O("[", Lit(VStr("k")))>>)       \* T['k'] (5 on the dict)
 SN == SpecArg(<<O(".", VStr("n"))>>)         \* Spec(T.n)
 
 AttrOps == {O(".", VStr(a)) : a \in {"n", "z", "s", "l", "d", "t", "echo", "first", "boom", "seven", "x"} \cup
-                                     (IF Wide THEN {"m", "none"} ELSE {})}
-ItemArgs == {Lit(VInt(0)), Lit(VInt(-1)), Lit(VInt(5)), Lit(VStr("k")), Lit(VStr("x")), TN, TZ,
+                                     (IF Level >= 2 THEN {"m", "none"} ELSE {})}
+TL == TArg(<<O(".", VStr("l"))>>)            \* T.l    (a list on the object: unhashable as an index)
+ItemArgs == {Lit(VInt(0)), Lit(VInt(-1)), Lit(VInt(5)), Lit(VStr("k")), Lit(VStr("x")), TN, TZ, TL,
+             [a |-> "list", items |-> <<Lit(VStr("k"))>>],
              SliceArg(VInt(0), VInt(1), VNone), SliceArg(VNone, VNone, VInt(-1))} \cup
-            (IF Wide THEN {Lit(VStr("o")), Lit(VNone), TK, SN, SliceArg(VInt(1), VNone, VNone),
+            (IF Level >= 2 THEN {Lit(VStr("o")), Lit(VNone), TK, SN, SliceArg(VInt(1), VNone, VNone),
                            SliceArg(VInt(-1), VInt(0), VInt(-1)), SliceArg(VNone, VInt(5), VInt(2)),
                            SliceArg(VNone, VNone, VInt(0))} ELSE {})
 ItemOps == {O("[", a) : a \in ItemArgs}
@@ -42,15 +44,20 @@ CallOps == {O("(", [args |-> <<>>, kwargs |-> NoKw]),
             O("(", [args |-> <<TN, Lit(VStr("lit"))>>, kwargs |-> NoKw]),
             O("(", [args |-> <<TK>>, kwargs |-> << <<"kw", TZ>> >>]),
             O("(", [args |-> << [a |-> "list", items |-> <<TN, Lit(VInt(2))>>] >>, kwargs |-> NoKw])} \cup
-           (IF Wide THEN {O("(", [args |-> <<SN>>, kwargs |-> << <<"a", Lit(VNone)>>, <<"b", TN>> >>]),
+           (IF Level >= 2 THEN {O("(", [args |-> <<SN>>, kwargs |-> << <<"a", Lit(VNone)>>, <<"b", TN>> >>]),
                           O("(", [args |-> << [a |-> "dict", items |-> << <<Lit(VStr("q")), TN>> >>],
                                               [a |-> "tuple", items |-> <<TZ>>] >>, kwargs |-> NoKw]),
                           O("(", [args |-> <<Lit(VFn("seven")), Lit(VRef(1))>>, kwargs |-> NoKw])} ELSE {})
 BinOps == {"+", "-", "*", "/", "#", "%", ":", "&", "|", "^"}
-BinArgs == {Lit(VInt(2)), Lit(VInt(0)), TN, Lit(VStr("s"))} \cup
-           (IF Wide THEN {Lit(VInt(-2)), Lit(VInt(3)), TZ, [a |-> "list", items |-> <<Lit(VInt(9))>>], Lit(VNone)} ELSE {})
+\* 1 and 1.0 are equal but different literals (int vs float): both must be replayed faithfully
+BinArgs == {Lit(VInt(2)), Lit(VInt(0)), TN, Lit(VStr("s")), Lit(VInt(1)), Lit(VFrac(1, 1))} \cup
+           (IF Level >= 2 THEN {Lit(VInt(-2)), Lit(VInt(3)), TZ, [a |-> "list", items |-> <<Lit(VInt(9))>>], Lit(VNone)} ELSE {})
 ArithOps == {O(b, a) : b \in BinOps, a \in BinArgs} \cup {O("~", VNone), O("_", VNone)}
-Alphabet == AttrOps \cup ItemOps \cup CallOps \cup ArithOps
+TinyAttr == {O(".", VStr(a)) : a \in {"n", "l", "d", "echo", "boom", "x"}}
+TinyItem == {O("[", a) : a \in {Lit(VInt(0)), Lit(VStr("k")), TN, TL, SliceArg(VNone, VNone, VInt(-1))}}
+TinyArith == {O(b, a) : b \in {"+", "*", "#", "%", ":", "&"}, a \in {Lit(VInt(2)), Lit(VInt(0)), Lit(VFrac(1, 1)), TN}} \cup {O("~", VNone)}
+Alphabet == IF Level = 0 THEN TinyAttr \cup TinyItem \cup CallOps \cup TinyArith
+            ELSE AttrOps \cup ItemOps \cup CallOps \cup ArithOps
 \* what may be recorded after the first failure (kept small: the outcome must not change)
 AfterFail == {O(".", VStr("n")), O("[", Lit(VInt(0))), O("+", Lit(VInt(2))), O("(", [args |-> <<>>, kwargs |-> NoKw]),
               O("#", Lit(VInt(2)))}
